@@ -127,6 +127,8 @@ def snap_modules(exclude_constants=True):
                 continue
             if isinstance(v, types.ModuleType):
                 continue
+            if (type(v).__module__ or '').split('.')[0] in ('flask', 'werkzeug', 'jinja2', 'click', 'itsdangerous'):
+                continue        # the web framework's own objects (application, request proxy) are not library data
             if hasattr(v, 'cache_info') and not isinstance(v, type):
                 items.append((k, canon(v)))
                 continue
